@@ -92,7 +92,7 @@ def limit_counter(P):
             continue
         if f0.spath not in PR.pinned_fns() and PR.pinned_fns():
             continue     # a new helper: it is analysed inlined into its callers
-        views.append(PR.view(P, f0))
+        views.append(PR.desugared(P, PR.view(P, f0)))
     found = None
     for f in views:
         for i, st in f.stmts():
@@ -150,6 +150,8 @@ def run(R):
             m = re.search(r"^core::option::Option::(unwrap_or|unwrap_or_default|map_or)$", short(c.name))
             if not m or not c.args or c.args[0].get("k") not in ("copy", "move") or not (c.args[0].get("ty") or "").startswith("core::option::Option<usize>"):
                 continue
+            if m.group(1) == "map_or" and len(c.args) > 1 and (c.args[1].get("ty") or "") != "usize":
+                continue     # `limit.map_or(false, |l| n >= l)`: a test, not a number
             if "limit" not in F.provenance_fields(g, c.args[0], depth=10):
                 continue
             n_lim += 1
@@ -241,13 +243,16 @@ def run(R):
                         % [n for n in names if "filter" in n or "count" in n][:2], [ul.loc()])
         elif fed and all(o is not None and o.kind == "call" and short(o.call.name) == "alloc::vec::Vec::len" and
                          "sqlgrep::data_model::Row" in " ".join(o.call.func.get("res_targs") or o.call.targs) for o in fed
-                         if o is None or o.kind != "call" or not F.TRANSPARENT.search(short(o.call.name))):
+                         if o is None or o.kind != "call" or not F.TRANSPARENT.search(short(o.call.name))
+                         # (`+= result_row.map_or(0, |row| row.data.len())`: the 0 of a line without result row adds nothing)
+                         if not (o is not None and o.kind == "const" and o.const is not None and o.const.get("int") == 0)) and \
+                any(o is not None and o.kind == "call" and short(o.call.name) == "alloc::vec::Vec::len" for o in fed):
             R.ok("C07.count", wn, "counter += number of result rows (Vec<Row>::len)", ul.loc())
         else:
             R.violation("C07.count", wn + "|shape", "the LIMIT counter is increased by something else than the number of result rows (%s)"
                         % [str(o) for o in fed][:3], [ul.loc()])
     # pre-test and truncation in the Select arm
-    ef = R.need_fn(ENG + "execute")
+    ef = PR.desugared(P, R.need_fn(ENG + "execute"))
     es = PR.calls_matching(ef, r"ExecutionEngine::execute_select$")
     if len(es) != 1:
         R.violation("C07.pre", "execute|shape", "ExecutionEngine::execute: expected one execute_select call", [ef.loc()])
@@ -256,7 +261,7 @@ def run(R):
         # predicate helpers inlined)
         keep = r"ExecutionEngine::(execute_select|execute_aggregate|execute_aggregate_update|execute_aggregate_result)$|" + \
                "|".join(re.escape(w.spath) + "$" for w in writers) if writers else r"ExecutionEngine::(execute_select|execute_aggregate)"
-        efv = PR.view(P, ef, keep=keep)
+        efv = PR.desugared(P, PR.view(P, getattr(ef, "origin_fn", ef), keep=keep))
         fa = PR.facts(efv)
         ev = [c for c in efv.calls if short(c.name).endswith("ExecutionEngine::execute_select")][0]
 
